@@ -733,4 +733,475 @@ theorem rep_matmul3 {a b : Val ℝ} {a0 a1 a2 a3 a4 a5 a6 a7 a8 b0 b1 b2 b3 b4 b
 
 end rep4
 
+
+section rep5
+variable {env : ℕ → ℝ} {denv : ℕ → Option ℝ} {um : ℕ → Bool}
+
+attribute [local simp] Val.add Val.sub Val.neg Val.nscale Val.ndiv Val.smul Val.sdiv Val.dot Val.normSq Val.norm
+  Val.emul Val.ediv Val.comp Val.slice Val.cat Val.qconj Val.qconjV Val.rows Val.col
+  Val.transpose Val.transposeV Val.widen
+  bilin linmap mergeAdd zipAdd zipSub zipMul sumL dotV Val.dvec
+  E.val E.der E.ok getD_dAdd getD_dSub getD_dMul getD_dDiv getD_dFac getD_dFacR getD_map_neg getD_map_div
+  List.range List.range.loop
+
+syntax "rep2'' " ident ident ident ident : tactic
+macro_rules
+  | `(tactic| rep2'' $a $b $ha $hb) => `(tactic| (
+    obtain ⟨va, da, oka⟩ := $a
+    obtain ⟨vb, db, okb⟩ := $b
+    obtain ⟨hva, hda, hoka⟩ := $ha
+    obtain ⟨hvb, hdb, hokb⟩ := $hb
+    simp only [List.map] at hva hvb
+    subst hva hvb
+    refine ⟨?_, ?_, ?_⟩
+    · simp
+    · cases da <;> cases db <;> simp at hda hdb ⊢ <;> (try subst_vars) <;> (try simp_all) <;>
+        (try (repeat' apply And.intro)) <;> (try ring)
+    · intro h
+      simp at h hoka hokb ⊢
+      simp_all))
+
+syntax "rep1'' " ident ident : tactic
+macro_rules
+  | `(tactic| rep1'' $a $ha) => `(tactic| (
+    obtain ⟨va, da, oka⟩ := $a
+    obtain ⟨hva, hda, hoka⟩ := $ha
+    simp only [List.map] at hva
+    subst hva
+    refine ⟨?_, ?_, ?_⟩
+    · simp
+    · cases da <;> simp at hda ⊢ <;> (try subst_vars) <;> (try simp_all) <;>
+        (try (repeat' apply And.intro)) <;> (try ring)
+    · intro h
+      simp at h hoka ⊢
+      simp_all))
+
+theorem rep_sdiv4 {a s : Val ℝ} {a0 a1 a2 a3 s0 : E ℝ} (ha : Rep env denv um a [a0, a1, a2, a3]) (hs : Rep env denv um s [s0]) :
+    Rep env denv um (Val.sdiv a s) [.div a0 s0, .div a1 s0, .div a2 s0, .div a3 s0] := by rep2'' a s ha hs
+theorem rep_normSq4 {a : Val ℝ} {a0 a1 a2 a3 : E ℝ} (ha : Rep env denv um a [a0, a1, a2, a3]) :
+    Rep env denv um (Val.normSq a) [.add (.add (.add (.pow2 a0) (.pow2 a1)) (.pow2 a2)) (.pow2 a3)] := by rep1'' a ha
+/-- `Quaternion.reciprocal`: `conj / norm_sq` -/
+theorem rep_qrecip {a : Val ℝ} {a0 a1 a2 a3 : E ℝ} (ha : Rep env denv um a [a0, a1, a2, a3]) :
+    ∃ n : E ℝ, Rep env denv um (Val.qrecip a) [.div a0 n, .div (.neg a1) n, .div (.neg a2) n, .div (.neg a3) n] :=
+  ⟨_, rep_sdiv4 (rep_qconj ha) (rep_normSq4 ha)⟩
+/-- `Vector.with_norm`: `self * (norm / self.norm())` -/
+theorem rep_withNorm3 {a n : Val ℝ} {a0 a1 a2 n0 : E ℝ}
+    (ha : Rep env denv um a [a0, a1, a2]) (hn : Rep env denv um n [n0]) :
+    ∃ s : E ℝ, Rep env denv um (Val.withNorm a n) [.mul a0 s, .mul a1 s, .mul a2 s] :=
+  ⟨_, rep_smul3 ha (rep_sc2 (.div (.var 0) (.var 1)) hn (rep_norm3 ha))⟩
+/-- `transpose_numer` of a 3×3 item -/
+theorem rep_transpose3 {a : Val ℝ} {a0 a1 a2 a3 a4 a5 a6 a7 a8 : E ℝ}
+    (ha : Rep env denv um a [a0, a1, a2, a3, a4, a5, a6, a7, a8]) :
+    Rep env denv um (Val.transpose 3 3 a) [a0, a3, a6, a1, a4, a7, a2, a5, a8] := by rep1'' a ha
+
+theorem rpow_neg_two (t : ℝ) : Num.pow t (Num.ofInt (-2)) = t⁻¹ * t⁻¹ := by
+  show t ^ (((-2 : ℤ)) : ℝ) = _
+  rw [Real.rpow_intCast, zpow_neg, zpow_ofNat, sq, mul_inv]
+
+/-- `Vector.element_div`: `da ⊙ (1/b) − db ⊙ (a ⊙ b**(-2))` is the componentwise quotient rule -/
+theorem rep_ediv3 {a b : Val ℝ} {a0 a1 a2 b0 b1 b2 : E ℝ}
+    (ha : Rep env denv um a [a0, a1, a2]) (hb : Rep env denv um b [b0, b1, b2]) :
+    Rep env denv um (Val.ediv a b) [.div a0 b0, .div a1 b1, .div a2 b2] := by
+  obtain ⟨va, da, oka⟩ := a
+  obtain ⟨vb, db, okb⟩ := b
+  obtain ⟨hva, hda, hoka⟩ := ha
+  obtain ⟨hvb, hdb, hokb⟩ := hb
+  simp only [List.map] at hva hvb
+  subst hva hvb
+  refine ⟨?_, ?_, ?_⟩
+  · simp
+  · cases da <;> cases db <;> simp [rpow_neg_two] at hda hdb ⊢ <;> (try subst_vars) <;> (try simp_all) <;>
+      (try (repeat' apply And.intro)) <;> (try ring)
+  · intro h
+    simp at h hoka hokb ⊢
+    simp_all
+
+end rep5
+
+/-! ### Composition: every item program over Scalars and 3-vectors
+
+  `Prog` is the item-level program language restricted to Scalars and 3-vectors (the operations for
+  which `rep_*` theorems exist at these sizes).  `Prog.run` evaluates a program with the source's
+  item-level formulas (`Val.…`, what the driver executes), `Prog.expand` is its component expansion
+  into layer-1 expressions, `Prog.size` the type check.  `prog_rep`: for EVERY well-typed program, of any
+  depth, the run is represented by the expansion; `prog_sound`: hence every attached derivative component
+  is the derivative of the value component wherever the result is unmasked. -/
+
+inductive Prog where
+  | opdS (i : ℕ)
+  | opdV (i j k : ℕ)
+  | lit (c : ℝ)
+  | add (a b : Prog) | sub (a b : Prog) | neg (a : Prog)
+  | nscale (c : ℝ) (a : Prog) | ndiv (a : Prog) (c : ℝ)
+  | smul (a s : Prog) | sdiv (a s : Prog)
+  | sc1 (f : E ℝ) (a : Prog) | sc2 (f : E ℝ) (a b : Prog)
+  | dot (a b : Prog) | normSq (a : Prog) | norm (a : Prog)
+  | cross (a b : Prog) | emul (a b : Prog) | ediv (a b : Prog)
+  | comp (i : ℕ) (a : Prog)
+  | cat3 (a b c : Prog)
+  | unit (a : Prog) | proj (a b : Prog) | perp (a b : Prog) | ucross (a b : Prog) | withNorm (a n : Prog)
+
+namespace Prog
+
+/-- number of components (1 = Scalar, 3 = 3-vector) of a well-typed program; operands of a vector
+    carry the key on all components or on none -/
+def size (denv : ℕ → Option ℝ) : Prog → Option ℕ
+  | opdS _ => some 1
+  | opdV i j k => if (denv i).isSome = (denv j).isSome ∧ (denv j).isSome = (denv k).isSome then some 3 else none
+  | lit _ => some 1
+  | add a b | sub a b =>
+    match a.size denv, b.size denv with
+    | some 1, some 1 => some 1
+    | some 3, some 3 => some 3
+    | _, _ => none
+  | neg a | nscale _ a | ndiv a _ =>
+    match a.size denv with
+    | some 1 => some 1
+    | some 3 => some 3
+    | _ => none
+  | smul a s | sdiv a s =>
+    match a.size denv, s.size denv with
+    | some 1, some 1 => some 1
+    | some 3, some 1 => some 3
+    | _, _ => none
+  | sc1 _ a => match a.size denv with | some 1 => some 1 | _ => none
+  | sc2 _ a b => match a.size denv, b.size denv with | some 1, some 1 => some 1 | _, _ => none
+  | dot a b => match a.size denv, b.size denv with | some 3, some 3 => some 1 | _, _ => none
+  | normSq a | norm a => match a.size denv with | some 3 => some 1 | _ => none
+  | cross a b | emul a b | ediv a b | proj a b | perp a b | ucross a b =>
+    match a.size denv, b.size denv with | some 3, some 3 => some 3 | _, _ => none
+  | comp i a => match a.size denv with | some 3 => if i < 3 then some 1 else none | _ => none
+  | cat3 a b c =>
+    match a.size denv, b.size denv, c.size denv with | some 1, some 1, some 1 => some 3 | _, _, _ => none
+  | unit a => match a.size denv with | some 3 => some 3 | _ => none
+  | withNorm a n => match a.size denv, n.size denv with | some 3, some 1 => some 3 | _, _ => none
+
+/-- evaluation with the source's item-level formulas -/
+noncomputable def run (env : ℕ → ℝ) (denv : ℕ → Option ℝ) (um : ℕ → Bool) : Prog → Val ℝ
+  | opdS i => Val.opd [i] env denv um
+  | opdV i j k => Val.opd [i, j, k] env denv um
+  | lit c => ⟨[c], none, true⟩
+  | add a b => Val.add (a.run env denv um) (b.run env denv um)
+  | sub a b => Val.sub (a.run env denv um) (b.run env denv um)
+  | neg a => Val.neg (a.run env denv um)
+  | nscale c a => Val.nscale c (a.run env denv um)
+  | ndiv a c => Val.ndiv (a.run env denv um) c
+  | smul a s => Val.smul (a.run env denv um) (s.run env denv um)
+  | sdiv a s => Val.sdiv (a.run env denv um) (s.run env denv um)
+  | sc1 f a => Val.sc1 f (a.run env denv um)
+  | sc2 f a b => Val.sc2 f (a.run env denv um) (b.run env denv um)
+  | dot a b => Val.dot (a.run env denv um) (b.run env denv um)
+  | normSq a => Val.normSq (a.run env denv um)
+  | norm a => Val.norm (a.run env denv um)
+  | cross a b => Val.cross3 (a.run env denv um) (b.run env denv um)
+  | emul a b => Val.emul (a.run env denv um) (b.run env denv um)
+  | ediv a b => Val.ediv (a.run env denv um) (b.run env denv um)
+  | comp i a => Val.comp i (a.run env denv um)
+  | cat3 a b c => Val.cat (Val.cat (a.run env denv um) (b.run env denv um)) (c.run env denv um)
+  | unit a => Val.unit (a.run env denv um)
+  | proj a b => Val.proj (a.run env denv um) (b.run env denv um)
+  | perp a b => Val.perp (a.run env denv um) (b.run env denv um)
+  | ucross a b => Val.ucross (a.run env denv um) (b.run env denv um)
+  | withNorm a n => Val.withNorm (a.run env denv um) (n.run env denv um)
+
+def map2E (f : E ℝ → E ℝ → E ℝ) (a b : List (E ℝ)) : List (E ℝ) := List.zipWith f a b
+def unit3E (a : List (E ℝ)) : List (E ℝ) := a.map fun x => E.div x (.sqrt (normSq3E a))
+
+/-- component expansion -/
+def expand : Prog → List (E ℝ)
+  | opdS i => [.var i]
+  | opdV i j k => [.var i, .var j, .var k]
+  | lit c => [.lit c]
+  | add a b => map2E .add a.expand b.expand
+  | sub a b => map2E .sub a.expand b.expand
+  | neg a => a.expand.map .neg
+  | nscale c a => a.expand.map (.scale c)
+  | ndiv a c => a.expand.map (E.divn · c)
+  | smul a s => a.expand.map (E.mul · (s.expand.headD (.lit 0)))
+  | sdiv a s => a.expand.map (E.div · (s.expand.headD (.lit 0)))
+  | sc1 f a => [f.subst fun _ => a.expand.headD (.lit 0)]
+  | sc2 f a b => [f.subst fun i => if i = 0 then a.expand.headD (.lit 0) else b.expand.headD (.lit 0)]
+  | dot a b => [dot3E a.expand b.expand]
+  | normSq a => [normSq3E a.expand]
+  | norm a => [.sqrt (normSq3E a.expand)]
+  | cross a b => cross3E a.expand b.expand
+  | emul a b => map2E .mul a.expand b.expand
+  | ediv a b => map2E .div a.expand b.expand
+  | comp i a => [a.expand.getD i (.lit 0)]
+  | cat3 a b c => a.expand ++ b.expand ++ c.expand
+  | unit a => unit3E a.expand
+  | proj a b => (unit3E b.expand).map (E.mul · (dot3E a.expand (unit3E b.expand)))
+  | perp a b => map2E .sub a.expand ((unit3E b.expand).map (E.mul · (dot3E a.expand (unit3E b.expand))))
+  | ucross a b => unit3E (cross3E a.expand b.expand)
+  | withNorm a n => a.expand.map (E.mul ·
+      ((E.div (.var 0) (.var 1)).subst fun i => if i = 0 then n.expand.headD (.lit 0) else .sqrt (normSq3E a.expand)))
+
+end Prog
+
+theorem len1 {α : Type} {l : List α} (h : l.length = 1) : ∃ a, l = [a] := by
+  match l, h with
+  | [a], _ => exact ⟨a, rfl⟩
+
+theorem len3 {α : Type} {l : List α} (h : l.length = 3) : ∃ a b c, l = [a, b, c] := by
+  match l, h with
+  | [a, b, c], _ => exact ⟨a, b, c, rfl⟩
+
+section prog
+variable (env : ℕ → ℝ) (denv : ℕ → Option ℝ) (um : ℕ → Bool)
+
+/-- **prog_rep.**  Every well-typed item program, of any depth, evaluated by the source's item-level
+    formulas is represented by its component expansion. -/
+theorem prog_rep (p : Prog) : ∀ n, p.size denv = some n →
+    Rep env denv um (p.run env denv um) p.expand ∧ p.expand.length = n := by
+  induction p with
+  | opdS i => intro n h; simp only [Prog.size, Option.some.injEq] at h; subst h; exact ⟨rep_opd1 i, rfl⟩
+  | opdV i j k =>
+    intro n h
+    simp only [Prog.size] at h
+    split at h
+    · rename_i hk; simp only [Option.some.injEq] at h; subst h; exact ⟨rep_opd3 i j k hk, rfl⟩
+    · simp at h
+  | lit c =>
+    intro n h; simp only [Prog.size, Option.some.injEq] at h; subst h
+    exact ⟨⟨rfl, by simp [Val.dvec, E.der, Prog.run, Prog.expand], fun _ => by simp [E.ok, Prog.expand]⟩, rfl⟩
+  | add a b iha ihb =>
+    intro n h; simp only [Prog.size] at h
+    split at h
+    · rename_i h1 h2; obtain ⟨ra, la⟩ := iha _ h1; obtain ⟨rb, lb⟩ := ihb _ h2
+      obtain ⟨a0, ea⟩ := len1 la; obtain ⟨b0, eb⟩ := len1 lb
+      simp only [Option.some.injEq] at h; subst h
+      rw [ea] at ra; rw [eb] at rb; rw [Prog.run, Prog.expand, ea, eb]
+      exact ⟨rep_add1 ra rb, rfl⟩
+    · rename_i h1 h2; obtain ⟨ra, la⟩ := iha _ h1; obtain ⟨rb, lb⟩ := ihb _ h2
+      obtain ⟨a0, a1, a2, ea⟩ := len3 la; obtain ⟨b0, b1, b2, eb⟩ := len3 lb
+      simp only [Option.some.injEq] at h; subst h
+      rw [ea] at ra; rw [eb] at rb; rw [Prog.run, Prog.expand, ea, eb]
+      exact ⟨rep_add3 ra rb, rfl⟩
+    · simp at h
+  | sub a b iha ihb =>
+    intro n h; simp only [Prog.size] at h
+    split at h
+    · rename_i h1 h2; obtain ⟨ra, la⟩ := iha _ h1; obtain ⟨rb, lb⟩ := ihb _ h2
+      obtain ⟨a0, ea⟩ := len1 la; obtain ⟨b0, eb⟩ := len1 lb
+      simp only [Option.some.injEq] at h; subst h
+      rw [ea] at ra; rw [eb] at rb; rw [Prog.run, Prog.expand, ea, eb]
+      exact ⟨rep_sub1 ra rb, rfl⟩
+    · rename_i h1 h2; obtain ⟨ra, la⟩ := iha _ h1; obtain ⟨rb, lb⟩ := ihb _ h2
+      obtain ⟨a0, a1, a2, ea⟩ := len3 la; obtain ⟨b0, b1, b2, eb⟩ := len3 lb
+      simp only [Option.some.injEq] at h; subst h
+      rw [ea] at ra; rw [eb] at rb; rw [Prog.run, Prog.expand, ea, eb]
+      exact ⟨rep_sub3 ra rb, rfl⟩
+    · simp at h
+  | neg a iha =>
+    intro n h; simp only [Prog.size] at h
+    split at h
+    · rename_i h1; obtain ⟨ra, la⟩ := iha _ h1; obtain ⟨a0, ea⟩ := len1 la
+      simp only [Option.some.injEq] at h; subst h
+      rw [ea] at ra; rw [Prog.run, Prog.expand, ea]; exact ⟨rep_neg1 ra, rfl⟩
+    · rename_i h1; obtain ⟨ra, la⟩ := iha _ h1; obtain ⟨a0, a1, a2, ea⟩ := len3 la
+      simp only [Option.some.injEq] at h; subst h
+      rw [ea] at ra; rw [Prog.run, Prog.expand, ea]; exact ⟨rep_neg3 ra, rfl⟩
+    · simp at h
+  | nscale c a iha =>
+    intro n h; simp only [Prog.size] at h
+    split at h
+    · rename_i h1; obtain ⟨ra, la⟩ := iha _ h1; obtain ⟨a0, ea⟩ := len1 la
+      simp only [Option.some.injEq] at h; subst h
+      rw [ea] at ra; rw [Prog.run, Prog.expand, ea]; exact ⟨rep_nscale1 c ra, rfl⟩
+    · rename_i h1; obtain ⟨ra, la⟩ := iha _ h1; obtain ⟨a0, a1, a2, ea⟩ := len3 la
+      simp only [Option.some.injEq] at h; subst h
+      rw [ea] at ra; rw [Prog.run, Prog.expand, ea]; exact ⟨rep_nscale3 c ra, rfl⟩
+    · simp at h
+  | ndiv a c iha =>
+    intro n h; simp only [Prog.size] at h
+    split at h
+    · rename_i h1; obtain ⟨ra, la⟩ := iha _ h1; obtain ⟨a0, ea⟩ := len1 la
+      simp only [Option.some.injEq] at h; subst h
+      rw [ea] at ra; rw [Prog.run, Prog.expand, ea]; exact ⟨rep_ndiv1 c ra, rfl⟩
+    · rename_i h1; obtain ⟨ra, la⟩ := iha _ h1; obtain ⟨a0, a1, a2, ea⟩ := len3 la
+      simp only [Option.some.injEq] at h; subst h
+      rw [ea] at ra; rw [Prog.run, Prog.expand, ea]; exact ⟨rep_ndiv3 c ra, rfl⟩
+    · simp at h
+  | smul a s iha ihs =>
+    intro n h; simp only [Prog.size] at h
+    split at h
+    · rename_i h1 h2; obtain ⟨ra, la⟩ := iha _ h1; obtain ⟨rs, ls⟩ := ihs _ h2
+      obtain ⟨a0, ea⟩ := len1 la; obtain ⟨s0, es⟩ := len1 ls
+      simp only [Option.some.injEq] at h; subst h
+      rw [ea] at ra; rw [es] at rs; rw [Prog.run, Prog.expand, ea, es]
+      exact ⟨rep_smul1 ra rs, rfl⟩
+    · rename_i h1 h2; obtain ⟨ra, la⟩ := iha _ h1; obtain ⟨rs, ls⟩ := ihs _ h2
+      obtain ⟨a0, a1, a2, ea⟩ := len3 la; obtain ⟨s0, es⟩ := len1 ls
+      simp only [Option.some.injEq] at h; subst h
+      rw [ea] at ra; rw [es] at rs; rw [Prog.run, Prog.expand, ea, es]
+      exact ⟨rep_smul3 ra rs, rfl⟩
+    · simp at h
+  | sdiv a s iha ihs =>
+    intro n h; simp only [Prog.size] at h
+    split at h
+    · rename_i h1 h2; obtain ⟨ra, la⟩ := iha _ h1; obtain ⟨rs, ls⟩ := ihs _ h2
+      obtain ⟨a0, ea⟩ := len1 la; obtain ⟨s0, es⟩ := len1 ls
+      simp only [Option.some.injEq] at h; subst h
+      rw [ea] at ra; rw [es] at rs; rw [Prog.run, Prog.expand, ea, es]
+      exact ⟨rep_sdiv1 ra rs, rfl⟩
+    · rename_i h1 h2; obtain ⟨ra, la⟩ := iha _ h1; obtain ⟨rs, ls⟩ := ihs _ h2
+      obtain ⟨a0, a1, a2, ea⟩ := len3 la; obtain ⟨s0, es⟩ := len1 ls
+      simp only [Option.some.injEq] at h; subst h
+      rw [ea] at ra; rw [es] at rs; rw [Prog.run, Prog.expand, ea, es]
+      exact ⟨rep_sdiv3 ra rs, rfl⟩
+    · simp at h
+  | sc1 f a iha =>
+    intro n h; simp only [Prog.size] at h
+    split at h
+    · rename_i h1; obtain ⟨ra, la⟩ := iha _ h1; obtain ⟨a0, ea⟩ := len1 la
+      simp only [Option.some.injEq] at h; subst h
+      rw [ea] at ra; rw [Prog.run, Prog.expand, ea]; exact ⟨rep_sc1 f ra, rfl⟩
+    · simp at h
+  | sc2 f a b iha ihb =>
+    intro n h; simp only [Prog.size] at h
+    split at h
+    · rename_i h1 h2; obtain ⟨ra, la⟩ := iha _ h1; obtain ⟨rb, lb⟩ := ihb _ h2
+      obtain ⟨a0, ea⟩ := len1 la; obtain ⟨b0, eb⟩ := len1 lb
+      simp only [Option.some.injEq] at h; subst h
+      rw [ea] at ra; rw [eb] at rb; rw [Prog.run, Prog.expand, ea, eb]
+      exact ⟨rep_sc2 f ra rb, rfl⟩
+    · simp at h
+  | dot a b iha ihb =>
+    intro n h; simp only [Prog.size] at h
+    split at h
+    · rename_i h1 h2; obtain ⟨ra, la⟩ := iha _ h1; obtain ⟨rb, lb⟩ := ihb _ h2
+      obtain ⟨a0, a1, a2, ea⟩ := len3 la; obtain ⟨b0, b1, b2, eb⟩ := len3 lb
+      simp only [Option.some.injEq] at h; subst h
+      rw [ea] at ra; rw [eb] at rb; rw [Prog.run, Prog.expand, ea, eb]
+      exact ⟨rep_dot3 ra rb, rfl⟩
+    · simp at h
+  | normSq a iha =>
+    intro n h; simp only [Prog.size] at h
+    split at h
+    · rename_i h1; obtain ⟨ra, la⟩ := iha _ h1; obtain ⟨a0, a1, a2, ea⟩ := len3 la
+      simp only [Option.some.injEq] at h; subst h
+      rw [ea] at ra; rw [Prog.run, Prog.expand, ea]; exact ⟨rep_normSq3 ra, rfl⟩
+    · simp at h
+  | norm a iha =>
+    intro n h; simp only [Prog.size] at h
+    split at h
+    · rename_i h1; obtain ⟨ra, la⟩ := iha _ h1; obtain ⟨a0, a1, a2, ea⟩ := len3 la
+      simp only [Option.some.injEq] at h; subst h
+      rw [ea] at ra; rw [Prog.run, Prog.expand, ea]; exact ⟨rep_norm3 ra, rfl⟩
+    · simp at h
+  | cross a b iha ihb =>
+    intro n h; simp only [Prog.size] at h
+    split at h
+    · rename_i h1 h2; obtain ⟨ra, la⟩ := iha _ h1; obtain ⟨rb, lb⟩ := ihb _ h2
+      obtain ⟨a0, a1, a2, ea⟩ := len3 la; obtain ⟨b0, b1, b2, eb⟩ := len3 lb
+      simp only [Option.some.injEq] at h; subst h
+      rw [ea] at ra; rw [eb] at rb; rw [Prog.run, Prog.expand, ea, eb]
+      exact ⟨rep_cross3 ra rb, rfl⟩
+    · simp at h
+  | emul a b iha ihb =>
+    intro n h; simp only [Prog.size] at h
+    split at h
+    · rename_i h1 h2; obtain ⟨ra, la⟩ := iha _ h1; obtain ⟨rb, lb⟩ := ihb _ h2
+      obtain ⟨a0, a1, a2, ea⟩ := len3 la; obtain ⟨b0, b1, b2, eb⟩ := len3 lb
+      simp only [Option.some.injEq] at h; subst h
+      rw [ea] at ra; rw [eb] at rb; rw [Prog.run, Prog.expand, ea, eb]
+      exact ⟨rep_emul3 ra rb, rfl⟩
+    · simp at h
+  | ediv a b iha ihb =>
+    intro n h; simp only [Prog.size] at h
+    split at h
+    · rename_i h1 h2; obtain ⟨ra, la⟩ := iha _ h1; obtain ⟨rb, lb⟩ := ihb _ h2
+      obtain ⟨a0, a1, a2, ea⟩ := len3 la; obtain ⟨b0, b1, b2, eb⟩ := len3 lb
+      simp only [Option.some.injEq] at h; subst h
+      rw [ea] at ra; rw [eb] at rb; rw [Prog.run, Prog.expand, ea, eb]
+      exact ⟨rep_ediv3 ra rb, rfl⟩
+    · simp at h
+  | comp i a iha =>
+    intro n h; simp only [Prog.size] at h
+    split at h
+    · rename_i h1; obtain ⟨ra, la⟩ := iha _ h1; obtain ⟨a0, a1, a2, ea⟩ := len3 la
+      split at h
+      · rename_i hi
+        simp only [Option.some.injEq] at h; subst h
+        rw [ea] at ra; rw [Prog.run, Prog.expand, ea]
+        have hc := rep_comp3 ra
+        interval_cases i
+        · exact ⟨hc.1, rfl⟩
+        · exact ⟨hc.2.1, rfl⟩
+        · exact ⟨hc.2.2, rfl⟩
+      · simp at h
+    · simp at h
+  | cat3 a b c iha ihb ihc =>
+    intro n h; simp only [Prog.size] at h
+    split at h
+    · rename_i h1 h2 h3; obtain ⟨ra, la⟩ := iha _ h1; obtain ⟨rb, lb⟩ := ihb _ h2; obtain ⟨rc, lc⟩ := ihc _ h3
+      obtain ⟨a0, ea⟩ := len1 la; obtain ⟨b0, eb⟩ := len1 lb; obtain ⟨c0, ec⟩ := len1 lc
+      simp only [Option.some.injEq] at h; subst h
+      rw [ea] at ra; rw [eb] at rb; rw [ec] at rc; rw [Prog.run, Prog.expand, ea, eb, ec]
+      exact ⟨rep_cat21 (rep_cat ra rb) rc, rfl⟩
+    · simp at h
+  | unit a iha =>
+    intro n h; simp only [Prog.size] at h
+    split at h
+    · rename_i h1; obtain ⟨ra, la⟩ := iha _ h1; obtain ⟨a0, a1, a2, ea⟩ := len3 la
+      simp only [Option.some.injEq] at h; subst h
+      rw [ea] at ra; rw [Prog.run, Prog.expand, ea]; exact ⟨rep_unit3 ra, rfl⟩
+    · simp at h
+  | proj a b iha ihb =>
+    intro n h; simp only [Prog.size] at h
+    split at h
+    · rename_i h1 h2; obtain ⟨ra, la⟩ := iha _ h1; obtain ⟨rb, lb⟩ := ihb _ h2
+      obtain ⟨a0, a1, a2, ea⟩ := len3 la; obtain ⟨b0, b1, b2, eb⟩ := len3 lb
+      simp only [Option.some.injEq] at h; subst h
+      rw [ea] at ra; rw [eb] at rb; rw [Prog.run, Prog.expand, ea, eb]
+      exact ⟨rep_smul3 (rep_unit3 rb) (rep_dot3 ra (rep_unit3 rb)), rfl⟩
+    · simp at h
+  | perp a b iha ihb =>
+    intro n h; simp only [Prog.size] at h
+    split at h
+    · rename_i h1 h2; obtain ⟨ra, la⟩ := iha _ h1; obtain ⟨rb, lb⟩ := ihb _ h2
+      obtain ⟨a0, a1, a2, ea⟩ := len3 la; obtain ⟨b0, b1, b2, eb⟩ := len3 lb
+      simp only [Option.some.injEq] at h; subst h
+      rw [ea] at ra; rw [eb] at rb; rw [Prog.run, Prog.expand, ea, eb]
+      exact ⟨rep_sub3 ra (rep_smul3 (rep_unit3 rb) (rep_dot3 ra (rep_unit3 rb))), rfl⟩
+    · simp at h
+  | ucross a b iha ihb =>
+    intro n h; simp only [Prog.size] at h
+    split at h
+    · rename_i h1 h2; obtain ⟨ra, la⟩ := iha _ h1; obtain ⟨rb, lb⟩ := ihb _ h2
+      obtain ⟨a0, a1, a2, ea⟩ := len3 la; obtain ⟨b0, b1, b2, eb⟩ := len3 lb
+      simp only [Option.some.injEq] at h; subst h
+      rw [ea] at ra; rw [eb] at rb; rw [Prog.run, Prog.expand, ea, eb]
+      exact ⟨rep_unit3 (rep_cross3 ra rb), rfl⟩
+    · simp at h
+  | withNorm a m iha ihm =>
+    intro n h; simp only [Prog.size] at h
+    split at h
+    · rename_i h1 h2; obtain ⟨ra, la⟩ := iha _ h1; obtain ⟨rm, lm⟩ := ihm _ h2
+      obtain ⟨a0, a1, a2, ea⟩ := len3 la; obtain ⟨m0, em⟩ := len1 lm
+      simp only [Option.some.injEq] at h; subst h
+      rw [ea] at ra; rw [em] at rm; rw [Prog.run, Prog.expand, ea, em]
+      exact ⟨rep_smul3 ra (rep_sc2 (.div (.var 0) (.var 1)) rm (rep_norm3 ra)), rfl⟩
+    · simp at h
+
+/-- **prog_sound.**  For every well-typed item program `p` (any depth): wherever polymath leaves the
+    result unmasked, each component of the derivative item it attaches is the derivative of the
+    corresponding value component. -/
+theorem prog_sound (p : Prog) (x : ℕ → ℝ → ℝ) (dx : ℕ → Option ℝ) (t : ℝ) (n : ℕ)
+    (hx : ∀ k, HasDerivAt (x k) ((dx k).getD 0) t)
+    (hty : p.size dx = some n)
+    (hok : (p.run (fun k => x k t) dx um).ok = true) (j : ℕ) (hj : j < n) :
+    HasDerivAt (fun s => ((p.run (fun k => x k s) dx um).v).getD j 0)
+      (((p.run (fun k => x k t) dx um).dvec).getD j 0) t :=
+  rep_sound x dx um t hx (fun env => p.run env dx um) p.expand
+    (fun s => (prog_rep (fun k => x k s) dx um p n hty).1) hok j
+    (by rw [(prog_rep (fun k => x k t) dx um p n hty).2]; exact hj)
+
+end prog
+
+/-- non-vacuity of `prog_rep` / `prog_sound`: `a.perp(b.cross(a)).norm() * sin(s)`-like program of depth 4 is well typed -/
+example : (Prog.smul (.norm (.perp (.opdV 0 1 2) (.cross (.opdV 3 4 5) (.opdV 0 1 2)))) (.sc1 (.sin (.var 0)) (.opdS 6))).size
+    (fun _ => some 1) = some 1 := by
+  simp [Prog.size]
+
 end PMV.Dual
